@@ -1,5 +1,6 @@
 """C16 — the lexer tokenizes every input faithfully."""
 import os
+import re
 
 from . import core, gen
 
@@ -39,6 +40,16 @@ def run(r: core.Run):
     base = os.path.join(d, "C16")
     tie = None
     bad = []
+    d36 = next((f for f in r.findings.get("findings", []) if f.get("property") == "C16" and f.get("id", "").startswith("D36")), None)
+    d36_seen = False
+
+    def in_d36(hexform):
+        try:
+            t = bytes.fromhex(hexform).decode("utf-8", "replace")
+        except ValueError:
+            return False
+        m = re.match(r'^"(.*)"\^\^type:text$', t, re.S)
+        return bool(m) and m.group(1).endswith("\\")
     try:
         stats = core.run_bwh(["lex", "-maxlen", str(maxlen), "-n", str(n), "-ops", base + ".ops", "-impl", base + ".impl"],
                              extra_env={"VERIF_SEED": str(r.seed)}, timeout=3000)
@@ -68,6 +79,12 @@ def run(r: core.Run):
                 nontriv.add(o)
                 if a != "ok":
                     f = o.split()
+                    if f[1] == "printed" and d36 is not None and in_d36(f[2]):
+                        # known finding D36 (identified by its class: a printed text literal whose value ends with a
+                        # backslash); reported once, while its witness reproduces
+                        if f[2] == d36.get("witness"):
+                            d36_seen = True
+                        continue
                     bad.append((i, o, a, f"metamorphic law '{f[1]}' fails on the real lexer: {a}"))
         r.cov["distinct_nontrivial"] = len(nontriv)
         r.cov["traces_validated_against_impl"] = r.cov["evaluations"]
@@ -92,6 +109,8 @@ def run(r: core.Run):
             r.violation({"protocol": "lex", "what": "the real lexer does not terminate (or does not close its channel) on this input (Go-quoted); "
                          "for a metamorphic pair the hang may be on its case/whitespace variant", "input_go_quoted": inp})
             return
+    if d36_seen:
+        r.known(d36["id"], d36["what"])
     for i, o, a, why in bad[:3]:
         payload = {"protocol": "lex", "what": why, "implementation": a, "op": o}
         if o.startswith("L "):
